@@ -251,6 +251,20 @@ Theorem c04_sig_group_isolation : forall rsa_key_dec b64_dec hmac_b64 sha_hex ur
 Proof. exact engine_isolation. Qed.
 Print Assumptions c04_sig_group_isolation.
 
+(* the method dimension at the router (engine + patRouter): a strict signature-protected group whose route is registered
+   with guarded methods only (GET/POST/PUT/DELETE) never runs its handler for a request that does not verify (unsigned
+   included), WHATEVER the request's method: a registered method is guarded -> 403; HEAD, OPTIONS, PATCH, TRACE, ... are
+   not dispatched to the route at all -> 405 (HEAD does not fall through to the GET route) *)
+Theorem c04_sig_method_dimension : forall rsa_key_dec b64_dec hmac_b64 sha_hex url_parse body_dec groups i g registered now r o,
+  nth_error groups i = Some g -> g_keys g <> [] -> g_strict g = true ->
+  (forall m, existsb (bytes_eqb m) registered = true -> existsb (bytes_eqb m) checked_methods = true) ->
+  (forall k, alookup bytes_eqb (announced_fp r) (decryptor_map (g_keys g)) = Some k ->
+             rsa_key_dec k (announced_secret r) = None) ->
+  route_dispatch registered r (engine_gate rsa_key_dec b64_dec hmac_b64 sha_hex url_parse body_dec groups i now r) = Some o ->
+  s_ran o = false /\ (s_status o = 403 \/ s_status o = 405).
+Proof. exact method_dimension. Qed.
+Print Assumptions c04_sig_method_dimension.
+
 (* strict: whatever is not (header parses and signature verifies) is a 403 without handler;
    the Signature response header names the reason *)
 Theorem c04_strict_403 : forall decryptors rsa_dec b64_dec hmac_b64 sha_hex url_parse body_dec tol now r,
@@ -366,6 +380,23 @@ Theorem c04_rpc_burst_no_breaker_failures : forall codes,
 Proof. exact rejections_no_breaker_failures. Qed.
 Print Assumptions c04_rpc_burst_no_breaker_failures.
 
+(* the configuration matrix through the public constructor rpc.NewServer(ServerConfig{Auth, StrictControl, Redis}),
+   for a call with app/token metadata whose app is not cached: Auth off accepts everything; Auth on: missing metadata ->
+   Unauthenticated; stored token: right -> OK, wrong -> Unauthenticated in both modes; no stored token or store outage ->
+   Internal iff StrictControl, else OK *)
+Theorem c04_rpc_config_matrix : forall cache store app tok,
+  app <> 0%N -> tok <> 0%N -> alookup N.eqb app cache = None ->
+  let md := Some ([app], [tok]) in
+  (forall strict md', snd (server_config_gate false strict cache store md') = rpc_ok) /\
+  (forall strict, snd (server_config_gate true strict cache store None) = rpc_unauthenticated) /\
+  (forall strict t, store app = SVal t ->
+     snd (server_config_gate true strict cache store md) = if (tok =? t)%N then rpc_ok else rpc_unauthenticated) /\
+  (store app = SNil \/ store app = SFail ->
+     snd (server_config_gate true true cache store md) = rpc_internal /\
+     snd (server_config_gate true false cache store md) = rpc_ok).
+Proof. exact config_matrix. Qed.
+Print Assumptions c04_rpc_config_matrix.
+
 (* the interceptors: neither the method name nor unary/stream enters the decision, and the handler runs iff the
    call is accepted (code OK) *)
 Theorem c04_rpc_method_irrelevant : forall mode mode' m m' strict cache store md,
@@ -432,4 +463,14 @@ Example c04_group_nonvacuous :
   let r := mkr (bytes_of_string "GET") [47%N] [] [] cs [] 0 in
   let gate := engine_gate dec (fun _ => Some []) (fun _ _ => bytes_of_string "G") (fun b => b) (fun _ => None) (fun _ _ => DecErr) groups in
   option_map s_status (gate 0%nat 1005 r) = Some 200 /\ option_map s_status (gate 1%nat 1005 r) = Some 403.
+Proof. vm_compute. split; reflexivity. Qed.
+
+(* percent signs are ordinary bytes of the signed content: "?n=%41" is accepted, "?n=%42" under the same signature is not *)
+Example c04_percent_nonvacuous :
+  let get := bytes_of_string "GET" in
+  let q1 := bytes_of_string "n=%41&f=%d%!" in
+  let q2 := bytes_of_string "n=%42&f=%d%!" in
+  let h := mkh [7%N] (bytes_of_string "1000") 0 ([7%N] ++ join c_nl [bytes_of_string "1000"; get; bytes_of_string "/p%d"; q1; []]) in
+  verify_signature ex_hmac ex_sha (fun _ => None) 10 1005 (mkr get (bytes_of_string "/p%d") q1 [] [] [] 0) h = code_pass /\
+  verify_signature ex_hmac ex_sha (fun _ => None) 10 1005 (mkr get (bytes_of_string "/p%d") q2 [] [] [] 0) h = code_invalid_token.
 Proof. vm_compute. split; reflexivity. Qed.
